@@ -108,6 +108,40 @@ def coherent_py(net):
 				bad.append('ancestors of %s wrong' % n.index)
 		except Exception as e:
 			bad.append('descendants/ancestors raised %s' % type(e).__name__)
+	# derived views: every accessor that reports the structure must agree with the adjacency lists
+	try:
+		with warnings.catch_warnings():
+			warnings.simplefilter('ignore')
+			if list(net.node_indices) != labels:
+				bad.append('node_indices %s differ from the indices of nodes %s' % (net.node_indices, labels))
+			cyc = any(n.index in reach(n.index, succ) for n in net.nodes)
+			if len(net.nodes) <= 7 and bool(net.has_directed_cycle()) != cyc:
+				bad.append('has_directed_cycle() says %s, adjacency says %s' % (net.has_directed_cycle(), cyc))
+			for n in net.nodes:
+				if sorted(n.neighbor_indices) != sorted(n.successor_indices() + n.predecessor_indices()):
+					bad.append('neighbor_indices of %s are %s' % (n.index, n.neighbor_indices))
+				if all(x in byl for x in n.neighbor_indices) and [x.index for x in n.neighbors] != list(n.neighbor_indices):
+					bad.append('neighbors of %s are not the nodes of neighbor_indices' % n.index)
+				if [x.index for x in n.successors()] != list(n.successor_indices()) or [x.index for x in n.predecessors()] != list(n.predecessor_indices()):
+					bad.append('successors()/predecessors() of %s disagree with the index lists' % n.index)
+				if any(byl.get(x.index) is not x for x in n.successors() + n.predecessors()):
+					bad.append('a neighbour object of %s is not the network\'s node of that index' % n.index)
+				if net.get_node_from_index(n.index) is not n or net.parse_node(n.index) != (n, n.index) or net.parse_node(n) != (n, n.index):
+					bad.append('get_node_from_index/parse_node(%s) do not return the node' % n.index)
+				o = n.get_one_successor()
+				if (o is None) != (len(n.successor_indices()) == 0) or (o is not None and o.index not in n.successor_indices()):
+					bad.append('get_one_successor of %s wrong' % n.index)
+				o = n.get_one_predecessor()
+				if (o is None) != (len(n.predecessor_indices()) == 0) or (o is not None and o.index not in n.predecessor_indices()):
+					bad.append('get_one_predecessor of %s wrong' % n.index)
+				if n.network is not net:
+					bad.append('node %s does not point back to its network' % n.index)
+			if [x.index for x in net.source_nodes] != [l for l in labels if not byl[l].predecessor_indices()]:
+				bad.append('source_nodes wrong')
+			if [x.index for x in net.sink_nodes] != [l for l in labels if not byl[l].successor_indices()]:
+				bad.append('sink_nodes wrong')
+	except Exception as e:
+		bad.append('a structure accessor raised %s: %s' % (type(e).__name__, str(e)[:80]))
 	return bad
 
 
@@ -342,7 +376,11 @@ def bom_case(rep, rng):
 					po.set_bill_of_materials(raw_material=rm, num_needed=num); bom[fp][rm] = num
 			f.add_products([fa, fb])
 			if rng.random() < .4:
-				f.remove_product(fb); bom.pop(31)
+				if rng.random() < .5:
+					f.remove_product(fb)
+				else:
+					f.remove_products([31] if rng.random() < .5 else [fb])
+				bom.pop(31)
 			# later BOM mutations on products that are already in the network: change a quantity, add and remove an entry
 			for fp, po in ((30, fa), (31, fb)):
 				if fp not in bom:
